@@ -124,6 +124,7 @@ package payload
 //@ spec local(p string) bool
 
 //@ func NewDecoder
+//@   on return assert malformed-header-is-refused: called((*encoding/json.Decoder).Decode) && (lastret((*encoding/json.Decoder).Decode, 0) != nil ==> r1 != nil)
 //@   loop 0 backedge assert name-and-predecessor-of-every-part-are-converted: ncalls(strings.Split) == 2 && ncalls(path/filepath.Join) == 2
 //@   before call path/filepath.IsLocal assert checks-the-decoded-names: arg0 == part.Name || arg0 == part.Renamed
 //@   on return assert names-are-local: r0 != nil ==> forall(k, 0, len(binReader.meta), local(binReader.meta[k].Name) && (binReader.meta[k].Renamed == "" || local(binReader.meta[k].Renamed))) && as(r0, *Decoder) == binReader
